@@ -41,6 +41,12 @@ claimed = {
  "C13": dict(
    text="Lean 4 proof: a successful load reports the little-endian header and the payload length and its effect on memory is exactly the stores of payload byte i at (header+i) mod 65536 in order, every one succeeding, nothing else (C13_place, by induction on the payload, any memory model incl. banked ones); files under three bytes rejected with nothing written (C13_short); if the store of any byte faults after its predecessors were stored the load is an error (C13_fault, uses the regenerated fact that Load assigns CopyToMem's error); PreLoad uses the same copy (C13_preload). Tie: regenerated fact + differential of Load/PreloadRoms on all ten machines comparing result and full memory image.",
    technique="Lean 4 induction over the payload + regenerated error-use fact + differential with full image"),
+ "C14": dict(
+   text="Lean 4 proof: for every range start<=end<=$FFFF, label map, statistics and contents the report loop (counter width regenerated, obligation 17<=bits) terminates and the report is, in ascending order, for each address its labels in file order followed by exactly one address line with value and reduced count (C14_lines, C14_one_line_each, C14_value_count, C14_terminates). Tie: regenerated counter width + byte-exact differential of profiler.DumpStatistics and a structural check of the Go output.",
+   technique="Lean 4 loop/structure proof + regenerated counter width + exact-text differential"),
+ "C15": dict(
+   text="Lean 4 proof for all count vectors and all p: upward closed, at least ceil(n*p/100) ranked items flagged, p=100 flags all, threshold is an observed value, antitone in p, clamped index always in range (C15_upward, C15_top, C15_all, C15_member, C15_antitone, C15_total) for both strategies, from sortedness/permutation of mergeSort and a counting lemma. The float64 index is an input constrained by an integer envelope (IdxOk); the envelope is validated exhaustively by execution (65 536 x 101) on every run: this part is execution, not proof, and is named in the trusted base. Tie: differential of the cut-off functions and flags.",
+   technique="Lean 4 proof over sorted lists with an integer envelope for the float index (envelope validated exhaustively by execution) + differential"),
 }
 
 checks = []
